@@ -5,7 +5,7 @@
 //!   <op> h:fasta mc minlen maxlen decoys bucket report chimera minmatched isolo isohi zlo zhi
 //!        annotate wide deiso minpeaks ptol ftol [F file…] [C (a b)…] reps seed
 //!     file     := [S spectrum…]
-//!     spectrum := u32(precursor m/z) z(0 = not annotated) u32(rt seconds) [n (u32 m/z, u32 intensity)…]
+//!     spectrum := u32(precursor m/z) z(0 = not annotated, 255 = this is an MS1 scan) u32(rt seconds) [n (u32 m/z, u32 intensity)…]
 //!     ptol     := 0: ±20 ppm | 1: ±2.5 Da | 2: ±50 Da          ftol := 0: ±10 ppm | 1: ±0.02 Da
 //!
 //! `search`: configs (a b) = (threads, jitter?) — the spectra of all files (file_id = file position, id
@@ -23,6 +23,12 @@
 //! `downstream`: configs (a b) = (threads, unused) — the sequential search result is rescored with the real
 //!   `score_psms` (mass-error KDE, LDA, PEP KDE: the parallel float reductions) inside a pool of `threads`
 //!   threads; reply: K then per run: threads lda_ok [n (u32 discriminant_score, u32 posterior_error)…]
+//!
+//! `batch` only: every run is followed by the MS1 and TMT sides of its `SageResults`:
+//!     [F #MS1 scans per file_id…] mOrd mSet  nQuant qOrd qSet
+//!   (TMT6/MS2 reporter quantification is on when bit 0 of `seed` is set and deisotoping is off)
+//!   (digests over file_id, id, rt, every peak of each processed MS1 scan; files with MS1 scans are written as
+//!   mzML, the others as MGF; `quant.lfq = true`).
 //!
 //! reply (search, batch): K then per run:  a b dOrd dSet [n (key rank psm_id file file_id)…]
 //!   dOrd = digest of the feature list in output order, every field except psm_id, floats by bit pattern;
@@ -54,7 +60,11 @@ pub const INFO: Info = Info {
            >= 2 PSMs (tags chimeric:* count the replies containing such a spectrum and the share per case; every 8th \
            of them goes through op batch). batch: real Runner over temp MGF \
            files for every batch size 1..#files+1 (incl. partial last chunk, bs > #files) x pool sizes; directed: \
-           bs = 0 (chunks(0) panics), empty files, a single file. downstream: 120-650 spectra, decoys on, the sequential search result rescored by \
+           bs = 0 (chunks(0) panics), empty files, a single file; batch:ms1-runs stream (default on): mzML files with MS1 scans woven \
+           in as leading runs of 1-8, alternating runs, trailing runs, MS1-only files (pattern table MS1_PATTERNS + random), an occasional MS3 scan, TMT6/MS2 quant on in every \
+           second case, \
+           LFQ on, every batch size x pools of 2,3,4,8,16 threads x 2 repetitions; the reply carries the MS1 side of \
+           SageResults (count per file, digests). downstream: 120-650 spectra, decoys on, the sequential search result rescored by \
            score_psms (KDE + LDA + PEP) in pools of 1,1,2,3,4,8,16,32 threads. non-trivial = at least 2 PSMs reported and at \
            least one parallel configuration; distinct by request",
     serial: true,
@@ -223,16 +233,22 @@ fn spec_id(file: usize, scan: usize) -> String {
     format!("f{file}s{scan}")
 }
 
+/// `z == MS1` marks an MS1 scan (precursor m/z unused)
+const MS1: u8 = 255;
+/// `z == MS3` marks an MS3 scan (kept in `msn` by the accumulator, skipped by the `level == 2` search filter)
+const MS3: u8 = 253;
+
 fn raw_spectrum(file: usize, scan: usize, s: &Spec) -> RawSpectrum {
+    let ms1 = s.z == MS1;
     RawSpectrum {
         file_id: file,
-        ms_level: 2,
+        ms_level: if ms1 { 1 } else if s.z == MS3 { 3 } else { 2 },
         id: spec_id(file, scan),
-        precursors: vec![Precursor {
-            mz: s.pmz,
-            charge: if s.z == 0 { None } else { Some(s.z) },
-            ..Default::default()
-        }],
+        precursors: if ms1 {
+            vec![]
+        } else {
+            vec![Precursor { mz: s.pmz, charge: if s.z == 0 || s.z == MS3 { None } else { Some(s.z) }, ..Default::default() }]
+        },
         representation: Representation::Centroid,
         scan_start_time: s.rt_sec / 60.0,
         ion_injection_time: 0.0,
@@ -241,6 +257,55 @@ fn raw_spectrum(file: usize, scan: usize, s: &Spec) -> RawSpectrum {
         intensity: s.peaks.iter().map(|p| p.1).collect(),
         mobility: None,
     }
+}
+
+fn mzml_array(values: &[f32], acc: &str, name: &str) -> String {
+    let mut raw = Vec::with_capacity(values.len() * 4);
+    for v in values {
+        raw.extend_from_slice(&v.to_le_bytes());
+    }
+    let b64 = base64::encode(&raw);
+    format!(
+        "<binaryDataArray encodedLength=\"{}\"><cvParam cvRef=\"MS\" accession=\"MS:1000521\" name=\"32-bit float\" value=\"\"/>\
+         <cvParam cvRef=\"MS\" accession=\"MS:1000576\" name=\"no compression\" value=\"\"/>\
+         <cvParam cvRef=\"MS\" accession=\"{}\" name=\"{}\" value=\"\"/><binary>{}</binary></binaryDataArray>\n",
+        b64.len(), acc, name, b64
+    )
+}
+
+/// indexless mzML with MS1 and MS2 scans in the given order (32-bit uncompressed arrays, times in seconds)
+fn mzml_text(file: usize, specs: &[Spec]) -> String {
+    let mut body = String::new();
+    for (scan, sp) in specs.iter().enumerate() {
+        let ms1 = sp.z == MS1;
+        body.push_str(&format!("<spectrum index=\"{}\" id=\"{}\" defaultArrayLength=\"{}\">\n", scan, spec_id(file, scan), sp.peaks.len()));
+        body.push_str(&format!("<cvParam cvRef=\"MS\" accession=\"MS:1000511\" name=\"ms level\" value=\"{}\"/>\n", if ms1 { 1 } else if sp.z == MS3 { 3 } else { 2 }));
+        body.push_str("<cvParam cvRef=\"MS\" accession=\"MS:1000127\" name=\"centroid spectrum\" value=\"\"/>\n");
+        body.push_str(&format!(
+            "<scanList count=\"1\"><scan><cvParam cvRef=\"MS\" accession=\"MS:1000016\" name=\"scan start time\" value=\"{}\" unitCvRef=\"UO\" unitAccession=\"UO:0000010\" unitName=\"second\"/></scan></scanList>\n",
+            sp.rt_sec
+        ));
+        if !ms1 {
+            body.push_str(&format!(
+                "<precursorList count=\"1\"><precursor><selectedIonList count=\"1\"><selectedIon><cvParam cvRef=\"MS\" accession=\"MS:1000744\" name=\"selected ion m/z\" value=\"{}\"/>",
+                sp.pmz
+            ));
+            if sp.z != 0 && sp.z != MS3 {
+                body.push_str(&format!("<cvParam cvRef=\"MS\" accession=\"MS:1000041\" name=\"charge state\" value=\"{}\"/>", sp.z));
+            }
+            body.push_str("</selectedIon></selectedIonList></precursor></precursorList>\n");
+        }
+        let mzs: Vec<f32> = sp.peaks.iter().map(|p| p.0).collect();
+        let ints: Vec<f32> = sp.peaks.iter().map(|p| p.1).collect();
+        body.push_str("<binaryDataArrayList count=\"2\">\n");
+        body.push_str(&mzml_array(&mzs, "MS:1000514", "m/z array"));
+        body.push_str(&mzml_array(&ints, "MS:1000515", "intensity array"));
+        body.push_str("</binaryDataArrayList>\n</spectrum>\n");
+    }
+    format!(
+        "<?xml version=\"1.0\" encoding=\"utf-8\"?>\n<mzML xmlns=\"http://psi.hupo.org/ms/mzml\" version=\"1.1.0\">\n<run id=\"run\">\n<spectrumList count=\"{}\">\n{}</spectrumList>\n</run>\n</mzML>\n",
+        specs.len(), body
+    )
 }
 
 fn mgf_text(file: usize, specs: &[Spec]) -> String {
@@ -397,6 +462,81 @@ fn emit_run(o: &mut Out, a: usize, b: usize, feats: &[Feature], keys: &HashMap<S
     }
 }
 
+/// digest of one processed MS1 scan: file_id, id, retention time, #peaks and every peak, by bit pattern
+fn ms1_digest(s: &ProcessedSpectrum<sage_core::spectrum::Peak>) -> u64 {
+    let mut h = Fnv::new();
+    h.u64(s.file_id as u64);
+    h.u64(s.level as u64);
+    h.u64(s.id.len() as u64);
+    h.bytes(s.id.as_bytes());
+    h.f32(s.scan_start_time);
+    h.u64(s.peaks.len() as u64);
+    for p in &s.peaks {
+        h.f32(p.mass);
+        h.f32(p.intensity);
+    }
+    h.0
+}
+
+/// MS1 side of a result:  [F count per file_id…] dOrd dSet   (a WithMobility container is reported as file count
+/// `nfiles + 1` so that it can never look right: no input of this op has ion mobility)
+fn emit_ms1(o: &mut Out, nfiles: usize, ms1: &[ProcessedSpectrum<sage_core::spectrum::Peak>], with_mobility: bool) {
+    let mut counts = vec![0usize; nfiles + if with_mobility { 1 } else { 0 }];
+    let ds: Vec<u64> = ms1.iter().map(ms1_digest).collect();
+    for s in ms1 {
+        if s.file_id < counts.len() {
+            counts[s.file_id] += 1;
+        } else {
+            counts.push(1); // an MS1 scan of a file that does not exist: the length no longer matches
+        }
+    }
+    let mut ord = Fnv::new();
+    for &d in &ds {
+        ord.u64(d);
+    }
+    let mut sorted = ds.clone();
+    sorted.sort_unstable();
+    let mut set = Fnv::new();
+    for &d in &sorted {
+        set.u64(d);
+    }
+    o.n(counts.len());
+    for c in counts {
+        o.n(c);
+    }
+    o.n(ord.0).n(set.0);
+}
+
+/// TMT side of a result:  nQuant qOrd qSet   (digest over spec_id, file_id, injection time, every reporter intensity)
+fn emit_quant(o: &mut Out, quant: &[sage_core::tmt::TmtQuant]) {
+    let ds: Vec<u64> = quant
+        .iter()
+        .map(|q| {
+            let mut h = Fnv::new();
+            h.u64(q.spec_id.len() as u64);
+            h.bytes(q.spec_id.as_bytes());
+            h.u64(q.file_id as u64);
+            h.f32(q.ion_injection_time);
+            h.u64(q.peaks.len() as u64);
+            for &p in &q.peaks {
+                h.f32(p);
+            }
+            h.0
+        })
+        .collect();
+    let mut ord = Fnv::new();
+    for &d in &ds {
+        ord.u64(d);
+    }
+    let mut sorted = ds.clone();
+    sorted.sort_unstable();
+    let mut set = Fnv::new();
+    for &d in &sorted {
+        set.u64(d);
+    }
+    o.n(quant.len()).n(ord.0).n(set.0);
+}
+
 fn key_map(files: &[Vec<Spec>]) -> HashMap<String, (usize, usize)> {
     let mut m = HashMap::new();
     let mut k = 0usize;
@@ -535,16 +675,28 @@ fn exec_batch(r: &Req) -> Option<String> {
     std::fs::write(&fasta_path, &r.cfg.fasta).ok()?;
     let mut paths = Vec::new();
     for (fi, f) in r.files.iter().enumerate() {
-        let p = dir.0.join(format!("file{fi}.mgf"));
-        std::fs::write(&p, mgf_text(fi, f)).ok()?;
+        // MGF cannot carry MS1 scans: a file with MS1 scans is written as mzML
+        let has_ms1 = f.iter().any(|s| s.z == MS1 || s.z == MS3);
+        let p = dir.0.join(if has_ms1 { format!("file{fi}.mzML") } else { format!("file{fi}.mgf") });
+        std::fs::write(&p, if has_ms1 { mzml_text(fi, f) } else { mgf_text(fi, f) }).ok()?;
         paths.push(p.to_string_lossy().to_string());
     }
     let (precursor_tol, fragment_tol) = tolerances(&r.cfg);
     let c = &r.cfg;
+    // with deisotoping the runner derives a reporter-dependent `min_deisotope_mz`; keep the reference simple
+    let tmt = r.seed & 1 == 1 && !c.deiso;
     let search = Search {
         version: "verif".into(),
         database: db_parameters(c, &fasta_path.to_string_lossy()),
-        quant: Default::default(),
+        // LFQ on: the run is one in which the MS1 scans matter downstream
+        // request `seed` bit 0 (unused otherwise by `batch`): TMT6 reporter quantification at MS2 level, so that the
+        // `quant` side of SageResults is populated (one row per MS2 scan)
+        quant: sage_cli::input::QuantSettings {
+            lfq: true,
+            tmt: if tmt { Some(sage_core::tmt::Isobaric::Tmt6) } else { None },
+            tmt_settings: sage_cli::input::TmtSettings { level: 2, sn: false },
+            ..Default::default()
+        },
         precursor_tol,
         fragment_tol,
         precursor_charge: c.z,
@@ -599,16 +751,29 @@ fn exec_batch(r: &Req) -> Option<String> {
     // file_id = position of the file, preprocessed and scored one after the other
     {
         let sp = SpectrumProcessor::new(p.max_peaks, p.deisotope, 0.0);
-        let reference: Vec<Feature> = r
+        let processed: Vec<ProcessedSpectrum<sage_core::spectrum::Peak>> = r
             .files
             .iter()
             .enumerate()
             .flat_map(|(fi, f)| f.iter().enumerate().map(move |(si, s)| raw_spectrum(fi, si, s)))
             .map(|s| sp.process(s))
+            .collect();
+        let reference: Vec<Feature> = processed
+            .iter()
             .filter(|spec| spec.peaks.len() >= p.min_peaks && spec.level == 2)
-            .flat_map(|spec| sc.score(&spec))
+            .flat_map(|spec| sc.score(spec))
             .collect();
         emit_run(&mut o, 0, 0, &reference, &keys);
+        // every MS1 scan of the input, in input order
+        let (ms1, msn): (Vec<_>, Vec<_>) = processed.into_iter().partition(|s| s.level == 1);
+        emit_ms1(&mut o, r.files.len(), &ms1, false);
+        // what `complete_features` computes per chunk, here over all MSn scans of all files in input order
+        let quant = if tmt {
+            sage_core::tmt::quantify(&msn, &sage_core::tmt::Isobaric::Tmt6, Tolerance::Ppm(-20.0, 20.0), 2)
+        } else {
+            Vec::new()
+        };
+        emit_quant(&mut o, &quant);
     }
     for &(bs, threads) in &r.configs {
         if threads == 0 || threads > 64 {
@@ -619,6 +784,12 @@ fn exec_batch(r: &Req) -> Option<String> {
             // bs = 0: `chunks(0)` panics; the panic propagates through `install` to the harness' catch_unwind
             let res = pl.install(|| runner.batch_files(&sc, bs));
             emit_run(&mut o, bs, threads, &res.features, &keys);
+            match &res.ms1 {
+                sage_core::spectrum::MS1Spectra::Empty => emit_ms1(&mut o, r.files.len(), &[], false),
+                sage_core::spectrum::MS1Spectra::NoMobility(v) => emit_ms1(&mut o, r.files.len(), v, false),
+                sage_core::spectrum::MS1Spectra::WithMobility(_) => emit_ms1(&mut o, r.files.len(), &[], true),
+            }
+            emit_quant(&mut o, &res.quant);
         }
     }
     Some(o.finish())
@@ -883,6 +1054,65 @@ fn gen_chimeric(rng: &mut Rng, nspec: usize, nfiles: usize) -> Option<(Cfg, Vec<
     None
 }
 
+/// the level patterns of the MS1 stream: '1' = a fresh MS1 scan, '2' = the file's next MS2 scan (the rest of
+/// the MS2 scans follow the pattern).  Leading runs of 1-8 MS1 scans (a whole left-hand piece of a halving split
+/// of 8/16/32 scans holds only MS1), alternating, trailing runs, MS1 only.
+const MS1_PATTERNS: &[&str] = &[
+    "1111221221221222",
+    "12", "112", "1112", "11112", "111112", "1111112", "11111112", "111111112",
+    "1111111122222222", "1111222211112222", "1212121212121212", "2121212121212121",
+    "2222222211111111", "2221", "22211", "222111", "2222221111",
+    "1", "11", "1111", "11111111",
+    "1211211121111211111",
+];
+
+fn ms1_scan(rng: &mut Rng) -> Spec {
+    let n = 1 + rng.below(20);
+    let peaks = (0..n).map(|_| (300.0 + (rng.unit() * 1200.0) as f32, 10.0 + (rng.unit() * 5000.0) as f32)).collect();
+    Spec { pmz: 0.0, z: MS1, rt_sec: (rng.unit() * 3600.0) as f32, peaks }
+}
+
+/// weave MS1 scans into the files; returns the number of MS1 scans added
+fn weave_ms1(rng: &mut Rng, files: &mut [Vec<Spec>]) -> usize {
+    let mut added = 0usize;
+    for f in files.iter_mut() {
+        if rng.chance(1, 6) {
+            continue; // an MS2-only file (stays MGF) next to mzML files
+        }
+        let ms2: Vec<Spec> = std::mem::take(f);
+        let mut it = ms2.into_iter();
+        let pattern: String = if rng.chance(3, 4) {
+            rng.pick(MS1_PATTERNS).to_string()
+        } else {
+            // random: leading run of 1-8, then runs of MS1/MS2 of random length
+            let mut p = "1".repeat(1 + rng.below(8));
+            for _ in 0..rng.below(8) {
+                p.push_str(&"2".repeat(1 + rng.below(4)));
+                p.push_str(&"1".repeat(rng.below(5)));
+            }
+            p
+        };
+        for c in pattern.chars() {
+            if c == '1' {
+                f.push(ms1_scan(rng));
+                added += 1;
+            } else if let Some(s) = it.next() {
+                let ms3 = if rng.chance(1, 8) { Some(Spec { z: MS3, ..s.clone() }) } else { None };
+                f.push(s);
+                // an MS3 scan: stays in `msn`, must be skipped by the `level == 2` filter of the search
+                f.extend(ms3);
+            }
+        }
+        f.extend(it);
+        // sometimes a trailing run as well
+        for _ in 0..(if rng.chance(1, 3) { 1 + rng.below(5) } else { 0 }) {
+            f.push(ms1_scan(rng));
+            added += 1;
+        }
+    }
+    added
+}
+
 pub fn gen(rng: &mut Rng, tier: Tier, emit: &mut dyn FnMut(Case)) {
     let quick = tier == Tier::Quick;
     let all_pools: &[usize] = &[1, 2, 3, 4, 8, 16, 32];
@@ -902,7 +1132,8 @@ pub fn gen(rng: &mut Rng, tier: Tier, emit: &mut dyn FnMut(Case)) {
             ptol: if directed == 1 { 2 } else { rng.below(3) as u8 },
             small_spectra: directed == 1,
         };
-        let Some((mut cfg, files, npsm)) = gen_inputs(rng, &sh) else { continue };
+        let Some((mut cfg, mut files, npsm)) = gen_inputs(rng, &sh) else { continue };
+        let with_ms1 = directed == 0 && weave_ms1(rng, &mut files) > 0; // MS1 scans must be skipped by the level filter
         if directed == 1 {
             cfg.min_peaks = 1;
             cfg.min_matched = 1;
@@ -927,7 +1158,7 @@ pub fn gen(rng: &mut Rng, tier: Tier, emit: &mut dyn FnMut(Case)) {
             5 => "search:annotate-matches",
             _ => "search:standard",
         };
-        emit(Case::new(write_req("search", &req)).tag(tag).tag_if(npsm < 2, "few-psms").nontrivial(npsm >= 2));
+        emit(Case::new(write_req("search", &req)).tag(tag).tag_if(with_ms1, "search:with-ms1-scans").tag_if(npsm < 2, "few-psms").nontrivial(npsm >= 2));
     }
     // ---------------------------------------------------------------- search: chimeric multi-PSM spectra
     let n_chim = if quick { 8 } else { 80 };
@@ -987,6 +1218,51 @@ pub fn gen(rng: &mut Rng, tier: Tier, emit: &mut dyn FnMut(Case)) {
         let configs: Vec<(usize, usize)> = [1usize, 1, 2, 3, 4, 8, 16, 32].iter().map(|&t| (t, 0usize)).collect();
         let req = Req { cfg, files, configs, reps: if quick { 1 } else { 2 }, seed: 0 };
         emit(Case::new(write_req("downstream", &req)).tag("downstream:lda-kde").nontrivial(npsm >= 20));
+    }
+    // ---------------------------------------------------------------- batch: MS1 scans in runs (mzML files, LFQ on)
+    let n_ms1 = if quick { 12 } else { 120 };
+    for i in 0..n_ms1 {
+        let nfiles = 1 + i % 4;
+        let sh = Shape {
+            nprot: 2 + rng.below(6),
+            nspec: nfiles * (4 + rng.below(if quick { 10 } else { 24 })),
+            nfiles,
+            report: 1 + rng.below(2),
+            chimera: false,
+            wide: false,
+            iso: (0, 0),
+            annotate: false,
+            ptol: rng.below(3) as u8,
+            small_spectra: false,
+        };
+        let Some((mut cfg, mut files, npsm)) = gen_inputs(rng, &sh) else { continue };
+        let added = weave_ms1(rng, &mut files);
+        let tmt = i % 2 == 0;
+        if tmt {
+            cfg.deiso = false;
+            // a reporter-region peak or two, so that the quant rows are not all zero
+            for f in files.iter_mut() {
+                for s in f.iter_mut().filter(|s| s.z != MS1) {
+                    if rng.chance(2, 3) {
+                        s.peaks.push((126.127726 + rng.below(6) as f32 * 1.0033, 50.0 + (rng.unit() * 500.0) as f32));
+                    }
+                }
+            }
+        }
+        let mut configs = vec![(1usize, 1usize)];
+        for bs in 1..=nfiles + 1 {
+            let mut pools = [2usize, 3, 4, 8, 16];
+            rng.shuffle(&mut pools);
+            for &t in &pools[..if quick { 3 } else { 5 }] {
+                configs.push((bs, t));
+            }
+        }
+        let req = Req { cfg, files, configs, reps: 2, seed: tmt as u64 };
+        emit(Case::new(write_req("batch", &req))
+            .tag("batch:ms1-runs")
+            .tag_if(tmt, "batch:tmt-quant")
+            .tag_if(added == 0, "batch:ms1-runs-none-added")
+            .nontrivial(added >= 1 && npsm >= 1));
     }
     // ---------------------------------------------------------------- batch
     let n_batch = if quick { 10 } else { 120 };
